@@ -60,7 +60,7 @@ type File struct {
 
 func Archive(files []File) []byte
 
-// DirEntry is one entry of a feed directory: Kind 0 readable file holding Msg, 1 unreadable (a sub-directory), 2 corrupt bytes, 3 empty file.
+// DirEntry is one entry of a feed directory: Kind 0 readable file holding Msg, 1 unreadable (a sub-directory), 2 corrupt bytes, 3 empty file, 4 a symbolic link to a readable file holding Msg.
 type DirEntry struct {
 	Name string
 	Kind int
